@@ -26,11 +26,15 @@ func c10R8(h H) {
 	if t := h.p.typeByName(modPath+"/"+cfPkg, "Token"); t != nil {
 		tokT = t
 	}
+	// a word containing ⏎ stands for a quoted token with a line break inside: it begins on its line, and what follows
+	// it (on its physical line and below) is one line further down
 	lex := func(file, text string) []aval {
 		var toks []aval
+		extra := 0
 		for li, ln := range strings.Split(text, "\n") {
 			for _, t := range strings.Fields(ln) {
-				toks = append(toks, astruct{map[string]aval{"File": astr(file), "Line": aint(int64(li + 1)), "Text": astr(t)}})
+				toks = append(toks, astruct{map[string]aval{"File": astr(file), "Line": aint(int64(li + 1 + extra)), "Text": astr(strings.ReplaceAll(t, "⏎", "\n"))}})
+				extra += strings.Count(t, "⏎")
 			}
 		}
 		return toks
@@ -40,30 +44,33 @@ func c10R8(h H) {
 		inline string
 		other  string
 		files  map[string]string
+		must   string // what the inline form has to parse to (where the pair alone would not pin it)
 	}
 	cases := []cs{
-		{"snippet imported in the middle of a block", "host {\n root /a\n gzip foo\n log out\n}", "(s) {\n gzip foo\n}\nhost {\n root /a\n import s\n log out\n}", nil},
-		{"snippet imported as first line", "host {\n gzip foo\n log out\n}", "(s) {\n gzip foo\n}\nhost {\n import s\n log out\n}", nil},
-		{"snippet imported as last line", "host {\n log out\n gzip foo\n}", "(s) {\n gzip foo\n}\nhost {\n log out\n import s\n}", nil},
-		{"snippet as the only line", "host {\n gzip foo\n}", "(s) {\n gzip foo\n}\nhost {\n import s\n}", nil},
-		{"two-line snippet", "host {\n gzip foo\n errors e.log\n log out\n}", "(s) {\n gzip foo\n errors e.log\n}\nhost {\n import s\n log out\n}", nil},
-		{"nested snippets, the outer one beginning with the import", "host {\n gzip foo\n log out\n}", "(inner) {\n gzip foo\n}\n(outer) {\n import inner\n log out\n}\nhost {\n import outer\n}", nil},
-		{"nested snippets, the import in the middle", "host {\n root /a\n gzip foo\n log out\n}", "(inner) {\n gzip foo\n}\n(outer) {\n root /a\n import inner\n log out\n}\nhost {\n import outer\n}", nil},
-		{"snippet holding a sub-block", "host {\n root /a\n errors {\n  404 x.html\n  500 y.html\n }\n log out\n}", "(s) {\n errors {\n  404 x.html\n  500 y.html\n }\n}\nhost {\n root /a\n import s\n log out\n}", nil},
-		{"same snippet in two blocks", "a.host {\n gzip foo\n}\nb.host {\n gzip foo\n log out\n}", "(s) {\n gzip foo\n}\na.host {\n import s\n}\nb.host {\n import s\n log out\n}", nil},
-		{"block without braces", "host\ngzip foo\nlog out", "(s) {\n gzip foo\n}\nhost\nimport s\nlog out", nil},
-		{"imported file in the middle", "host {\n root /a\n gzip foo\n log out\n}", "host {\n root /a\n import f.conf\n log out\n}", map[string]string{"/etc/f.conf": "gzip foo"}},
-		{"imported file, two lines, as first line", "host {\n gzip foo\n errors e.log\n log out\n}", "host {\n import f.conf\n log out\n}", map[string]string{"/etc/f.conf": "gzip foo\nerrors e.log"}},
-		{"imported file that begins with the import of a snippet", "host {\n gzip foo\n log out\n}", "(s) {\n gzip foo\n}\nhost {\n import f.conf\n}", map[string]string{"/etc/f.conf": "import s\nlog out"}},
-		{"snippet imported inside a sub-block", "host {\n errors {\n  404 x.html\n  500 y.html\n }\n}", "(s) {\n 404 x.html\n}\nhost {\n errors {\n  import s\n  500 y.html\n }\n}", nil},
-		{"nested snippets imported inside a sub-block", "host {\n errors {\n  404 x.html\n  500 y.html\n }\n}", "(inner) {\n 404 x.html\n}\n(outer) {\n import inner\n 500 y.html\n}\nhost {\n errors {\n  import outer\n }\n}", nil},
-		{"two snippets imported one after the other", "host {\n gzip foo\n log out\n root /a\n}", "(s) {\n gzip foo\n}\n(t) {\n log out\n}\nhost {\n import s\n import t\n root /a\n}", nil},
-		{"snippet defined after use site's file position is irrelevant: snippet with arguments spanning lines", "host {\n proxy / a b {\n  policy x\n }\n log out\n}", "(s) {\n proxy / a b {\n  policy x\n }\n}\nhost {\n import s\n log out\n}", nil},
-		{"import on the line of the opening brace", "host { gzip foo\n log out\n}", "(s) {\n gzip foo\n}\nhost { import s\n log out\n}", nil},
-		{"a file of whole blocks imported at top level", "a.host {\n gzip foo\n}\nb.host {\n log out\n}", "import f.conf\nb.host {\n log out\n}", map[string]string{"/etc/f.conf": "a.host {\n gzip foo\n}"}},
-		{"a file of whole blocks imported between blocks", "a.host {\n gzip foo\n}\nc.host {\n root /c\n}\nb.host {\n log out\n}", "a.host {\n gzip foo\n}\nimport f.conf\nb.host {\n log out\n}", map[string]string{"/etc/f.conf": "c.host {\n root /c\n}"}},
-		{"a file of addresses imported in the address line", "a.host,\nb.host {\n log out\n}", "import f.conf\nb.host {\n log out\n}", map[string]string{"/etc/f.conf": "a.host,"}},
-		{"repeated directive keeps its order", "host {\n header /a X 1\n gzip foo\n header /b Y 2\n}", "(s) {\n gzip foo\n header /b Y 2\n}\nhost {\n header /a X 1\n import s\n}", nil},
+		{"snippet imported in the middle of a block", "host {\n root /a\n gzip foo\n log out\n}", "(s) {\n gzip foo\n}\nhost {\n root /a\n import s\n log out\n}", nil, ""},
+		{"snippet imported as first line", "host {\n gzip foo\n log out\n}", "(s) {\n gzip foo\n}\nhost {\n import s\n log out\n}", nil, ""},
+		{"snippet imported as last line", "host {\n log out\n gzip foo\n}", "(s) {\n gzip foo\n}\nhost {\n log out\n import s\n}", nil, ""},
+		{"snippet as the only line", "host {\n gzip foo\n}", "(s) {\n gzip foo\n}\nhost {\n import s\n}", nil, ""},
+		{"two-line snippet", "host {\n gzip foo\n errors e.log\n log out\n}", "(s) {\n gzip foo\n errors e.log\n}\nhost {\n import s\n log out\n}", nil, ""},
+		{"nested snippets, the outer one beginning with the import", "host {\n gzip foo\n log out\n}", "(inner) {\n gzip foo\n}\n(outer) {\n import inner\n log out\n}\nhost {\n import outer\n}", nil, ""},
+		{"nested snippets, the import in the middle", "host {\n root /a\n gzip foo\n log out\n}", "(inner) {\n gzip foo\n}\n(outer) {\n root /a\n import inner\n log out\n}\nhost {\n import outer\n}", nil, ""},
+		{"snippet holding a sub-block", "host {\n root /a\n errors {\n  404 x.html\n  500 y.html\n }\n log out\n}", "(s) {\n errors {\n  404 x.html\n  500 y.html\n }\n}\nhost {\n root /a\n import s\n log out\n}", nil, ""},
+		{"same snippet in two blocks", "a.host {\n gzip foo\n}\nb.host {\n gzip foo\n log out\n}", "(s) {\n gzip foo\n}\na.host {\n import s\n}\nb.host {\n import s\n log out\n}", nil, ""},
+		{"block without braces", "host\ngzip foo\nlog out", "(s) {\n gzip foo\n}\nhost\nimport s\nlog out", nil, ""},
+		{"imported file in the middle", "host {\n root /a\n gzip foo\n log out\n}", "host {\n root /a\n import f.conf\n log out\n}", map[string]string{"/etc/f.conf": "gzip foo"}, ""},
+		{"imported file, two lines, as first line", "host {\n gzip foo\n errors e.log\n log out\n}", "host {\n import f.conf\n log out\n}", map[string]string{"/etc/f.conf": "gzip foo\nerrors e.log"}, ""},
+		{"imported file that begins with the import of a snippet", "host {\n gzip foo\n log out\n}", "(s) {\n gzip foo\n}\nhost {\n import f.conf\n}", map[string]string{"/etc/f.conf": "import s\nlog out"}, ""},
+		{"snippet imported inside a sub-block", "host {\n errors {\n  404 x.html\n  500 y.html\n }\n}", "(s) {\n 404 x.html\n}\nhost {\n errors {\n  import s\n  500 y.html\n }\n}", nil, ""},
+		{"nested snippets imported inside a sub-block", "host {\n errors {\n  404 x.html\n  500 y.html\n }\n}", "(inner) {\n 404 x.html\n}\n(outer) {\n import inner\n 500 y.html\n}\nhost {\n errors {\n  import outer\n }\n}", nil, ""},
+		{"two snippets imported one after the other", "host {\n gzip foo\n log out\n root /a\n}", "(s) {\n gzip foo\n}\n(t) {\n log out\n}\nhost {\n import s\n import t\n root /a\n}", nil, ""},
+		{"snippet defined after use site's file position is irrelevant: snippet with arguments spanning lines", "host {\n proxy / a b {\n  policy x\n }\n log out\n}", "(s) {\n proxy / a b {\n  policy x\n }\n}\nhost {\n import s\n log out\n}", nil, ""},
+		{"import on the line of the opening brace", "host { gzip foo\n log out\n}", "(s) {\n gzip foo\n}\nhost { import s\n log out\n}", nil, ""},
+		{"a file of whole blocks imported at top level", "a.host {\n gzip foo\n}\nb.host {\n log out\n}", "import f.conf\nb.host {\n log out\n}", map[string]string{"/etc/f.conf": "a.host {\n gzip foo\n}"}, ""},
+		{"a file of whole blocks imported between blocks", "a.host {\n gzip foo\n}\nc.host {\n root /c\n}\nb.host {\n log out\n}", "a.host {\n gzip foo\n}\nimport f.conf\nb.host {\n log out\n}", map[string]string{"/etc/f.conf": "c.host {\n root /c\n}"}, ""},
+		{"a file of addresses imported in the address line", "a.host,\nb.host {\n log out\n}", "import f.conf\nb.host {\n log out\n}", map[string]string{"/etc/f.conf": "a.host,"}, ""},
+		{"a token with a line break inside, followed by an argument on its line", "host {\n log a⏎b c\n gzip foo\n}", "(s) {\n log a⏎b c\n}\nhost {\n import s\n gzip foo\n}", nil, `{"host": gzip→["gzip" "foo"]; log→["log" "a\nb" "c"]}`},
+		{"a token with a line break inside ends its line", "host {\n log a⏎b\n gzip foo\n}", "(s) {\n gzip foo\n}\nhost {\n log a⏎b\n import s\n}", nil, `{"host": gzip→["gzip" "foo"]; log→["log" "a\nb"]}`},
+		{"repeated directive keeps its order", "host {\n header /a X 1\n gzip foo\n header /b Y 2\n}", "(s) {\n gzip foo\n header /b Y 2\n}\nhost {\n header /a X 1\n import s\n}", nil, ""},
 	}
 	parse := func(text string, files map[string]string) (string, string) {
 		p := &aobj{name: "parser", typ: pT, f: map[string]aval{
@@ -178,6 +185,8 @@ func c10R8(h H) {
 			bad = fmt.Sprintf("%s: %s: %s (the inline form %s is accepted)", c.name, show(c.other), e2, show(c.inline))
 		case a != b:
 			bad = fmt.Sprintf("%s: %s parses to %s, but the inline form %s to %s", c.name, show(c.other), b, show(c.inline), a)
+		case c.must != "" && a != c.must:
+			bad = fmt.Sprintf("%s: the inline form %s parses to %s, the syntax says %s", c.name, show(c.inline), a, c.must)
 		case !strings.Contains(a, "host"):
 			bad = fmt.Sprintf("%s: the inline form %s parses to %s", c.name, show(c.inline), a)
 		}
